@@ -201,7 +201,7 @@ impl<'a> Ctx<'a> {
             insts.push(info);
         }
         insts.sort_by_key(|i| i.created);
-        let has_share = sc.topo.contains("share");
+        let has_share = sc.topo.contains("share") || sc.topo.contains("diamond");
         Ctx { sc, h, ix, edges, insts, subs, has_share }
     }
 
